@@ -140,8 +140,13 @@ class CaseBuilder:
     def case(self):
         # the executor hands the children of every node to from_root through an iterator whose size_hint style varies
         # with the case (exact / uninformative / bare lower bound / loose upper bound): the game must be the same
-        return {"id": self.cid, "tree": self.tree, "ops": self.ops,
-                "iter_style": self.meta.get("iter_style", self.cid % 4 if isinstance(self.cid, int) else 0)}
+        c = {"id": self.cid, "tree": self.tree, "ops": self.ops,
+             "iter_style": self.meta.get("iter_style", self.cid % 4 if isinstance(self.cid, int) else 0)}
+        if self.meta.get("sweep") is not None:
+            # a parameter sweep in one process (executor: run_sweep): build, solve with the production samplers, evaluate,
+            # drop, next game; the result is one op holding [utility, regret one, regret two, regret] per game
+            c["sweep"] = self.meta["sweep"]
+        return c
 
     def coq(self):
         lines = ["Definition t%d : fgnode := %s." % (self.cid, self.meta.get("coq_tree_expr") or coq_tree(self.tree)),
